@@ -535,7 +535,7 @@ func rtErrorSemantics(a *aggregator, v *rtView, maxLen int) {
 	}
 	const endSymbol = 0x110000
 	n := 0
-	alphabet := []rune{'x', '\n', '世', '"'}
+	alphabet := []rune{'x', '\n', '世', '"', '%', '\\'}
 	var texts [][]rune
 	var gen func(prefix []rune, l int)
 	gen = func(prefix []rune, l int) {
@@ -620,7 +620,7 @@ func rtErrorSemantics(a *aggregator, v *rtView, maxLen int) {
 		bad = append(bad[:3], fmt.Sprintf("… %d more", len(bad)-3))
 	}
 	a.Decide(len(bad) == 0 && n > 100, "R-error-message", construct, cfg, pos,
-		fmt.Sprintf("%d evaluations: every input of at most %d runes over {x, newline, a multi-byte rune, a quote}, every token begin ≤ end ≤ len (empty input, offset 0 and end of input included), Pretty on and off: rule name, definitional line/column of both ends, exactly the runes between them quoted, no panic", n, maxLen), strings.Join(bad, "; "))
+		fmt.Sprintf("%d evaluations: every input of at most %d runes over {x, newline, a multi-byte rune, a quote, a percent sign, a backslash}, every token begin ≤ end ≤ len (empty input, offset 0 and end of input included), Pretty on and off: rule name, definitional line/column of both ends, exactly the runes between them quoted, no panic", n, maxLen), strings.Join(bad, "; "))
 }
 
 // rtPrintSemantics: R-print-semantics — AST() followed by the node printer,
